@@ -631,7 +631,11 @@ impl InnerLocustDB {
                 };
 
                 let span_decode = tracer.start_span("decode");
-                let decoded = col.decode();
+                let decompressed = col.decompressed();
+                let decoded = match &decompressed {
+                    Some(column) => column.decode(),
+                    None => col.decode(),
+                };
                 tracer.end_span(span_decode);
 
                 let span_push = tracer.start_span("push");
